@@ -65,7 +65,7 @@ ParseFrac(s, i) ==
 \* parse state: position d in the input (0 = failed), the broken-down fields, and the flags
 St0 == [d |-> 1, year |-> W(1970), sawyear |-> FALSE, mon |-> 1, mday |-> 1, hour |-> 0, min |-> 0, sec |-> 0, wday |-> 4,
         fs |-> WZero, sawoff |-> FALSE, off |-> 0, h12 |-> FALSE, pm |-> FALSE, week |-> -1, wstart |-> 0,
-        saws |-> FALSE, secs |-> WZero, deleg |-> FALSE, open |-> FALSE]
+        saws |-> FALSE, secs |-> WZero, deleg |-> FALSE, delegx |-> FALSE, open |-> FALSE]
 FailSt(st) == [st EXCEPT !.d = 0]
 \* seconds with an optional fraction (%E*S, %E#S)
 SecFrac(st, inp) ==
@@ -84,7 +84,7 @@ EnvP(env, spec, pos) == LET k == {i \in 1..Len(env) : env[i].spec = spec /\ env[
 Delegate(st, spec, env) ==
   LET r == EnvP(env, spec, st.d - 1) IN
   IF ~r.known \/ ~r.stable THEN [st EXCEPT !.open = TRUE, !.d = 0]      \* no recorded answer: outcome left open
-  ELSE IF r.ok = 0 THEN [st EXCEPT !.d = 0, !.deleg = TRUE]
+  ELSE IF r.ok = 0 THEN [st EXCEPT !.d = 0, !.deleg = TRUE, !.delegx = @ \/ (spec \notin {<<37, 97>>, <<37, 65>>, <<37, 112>>})]
   ELSE LET w == r.w IN
        [st EXCEPT !.d = st.d + r.used, !.deleg = TRUE,
                   !.year = IF "year" \in DOMAIN w THEN (IF st.sawyear THEN @ ELSE W(w.year + 1900)) ELSE @,
@@ -93,6 +93,10 @@ Delegate(st, spec, env) ==
                   !.hour = IF "hour" \in DOMAIN w THEN w.hour ELSE @,
                   !.min = IF "min" \in DOMAIN w THEN w.min ELSE @,
                   !.sec = IF "sec" \in DOMAIN w THEN w.sec ELSE @,
+                  \* the weekday a name (%a %A) denotes; any other delegated specifier may also touch the C library's
+                  \* own weekday bookkeeping in ways the recorded graph does not determine (delegx)
+                  !.wday = IF "wday" \in DOMAIN w THEN w.wday ELSE @,
+                  !.delegx = @ \/ (spec \notin {<<37, 97>>, <<37, 65>>, <<37, 112>>}),
                   !.pm = IF spec = <<37, 112>> THEN r.pm = 1 ELSE @]
 
 \* one step at format position f (the character at fmt[f]); returns <<state, next f>>
@@ -181,7 +185,7 @@ ParseResult(fmt, input, env, zmake(_)) ==
   IF st.open THEN [open |-> TRUE]
   ELSE IF st.d = 0 \/ SkipSpace(input, st.d) <= Len(input) THEN [open |-> FALSE, ok |-> FALSE]
   ELSE IF st.saws THEN [open |-> FALSE, ok |-> TRUE, t |-> st.secs, fs |-> WZero]
-  ELSE IF st.week # -1 /\ st.deleg THEN [open |-> TRUE]       \* strptime's own weekday bookkeeping: left open
+  ELSE IF st.week # -1 /\ st.delegx THEN [open |-> TRUE]      \* strptime's own weekday bookkeeping: left open
   ELSE
   LET hour == IF st.h12 /\ st.pm /\ st.hour < 12 THEN st.hour + 12 ELSE st.hour
       leap == st.sec = 60
